@@ -181,8 +181,9 @@ func (e *Env) call(x *ECall) Val {
 			}
 		}
 		if fc := g.P.ContractFor(fn); fc != nil && fc.Opts["pure"] != "" {
-			if e.inQuant > 0 {
-				// under a binder the ensures cannot be instantiated; the bare UF application is still sound
+			if e.inQuant > 0 || e.symHeap != nil {
+				// under a binder the ensures cannot be instantiated at this term: use the quantified contract
+				g.pureAxiom(fn, fc)
 				uf := "uf!" + sanitize(full)
 				var sorts, as []string
 				for _, a := range args {
@@ -651,4 +652,41 @@ func (e *Env) inlineGo(fn *ssa.Function, args []Val) (Val, bool) {
 	// specs are evaluated in a fixed heap; effects of the inlined call are not propagated
 	fr.cur = saveCur
 	return v, true
+}
+
+// pureAxiom adds the universally quantified form of a pure (trusted) contract, triggered on applications.
+func (g *Gen) pureAxiom(fn *ssa.Function, fc *FuncContract) {
+	name := fullName(fn)
+	if g.axiomsIn["pure:"+name] {
+		return
+	}
+	g.axiomsIn["pure:"+name] = true
+	uf := "uf!" + sanitize(name)
+	var rt types.Type = fn.Signature.Results().At(0).Type()
+	bind := map[string]Val{}
+	var decl, sorts, names []string
+	for _, p := range fn.Params {
+		s := g.sortOf(p.Type())
+		n := "pa!" + sanitize(p.Name())
+		bind[p.Name()] = Val{S: n, Sort: s, GT: p.Type()}
+		decl = append(decl, fmt.Sprintf("(%s %s)", n, s))
+		sorts = append(sorts, s)
+		names = append(names, n)
+	}
+	g.declFun(uf, sorts, g.sortOf(rt))
+	r := Val{S: app(uf, names...), Sort: g.sortOf(rt), GT: rt}
+	var pkg *types.Package
+	if fn.Pkg != nil {
+		pkg = fn.Pkg.Pkg
+	}
+	env := &Env{g: g, bind: bind, results: []Val{r}, pkg: pkg, symHeap: &symHeap{names: map[string]string{}}, inQuant: 1}
+	var cs []string
+	for _, c := range fc.Clauses {
+		if c.Kind == "ensures" {
+			cs = append(cs, env.trBool(c.E))
+		}
+	}
+	cs = append(cs, g.typeInv(r, ""))
+	g.decl(fmt.Sprintf("(assert (forall (%s) (! %s :pattern (%s))))", strings.Join(decl, " "), and(cs...), r.S))
+	g.Assumptions["trusted contract (assumed, body not verified): "+name+": "+clauseTexts(fc)] = true
 }
